@@ -178,6 +178,11 @@ def _expr(F, du, operand, depth=0):
     l = base_local(op)
     if l is None or depth > 6:
         return op
+    # a captured variable of a closure: `debug offset => (*((*_1).2: &usize))`
+    plc = operand_place(op).strip()
+    cap = [nm for (nm, pl) in F.debug_all if pl.strip() == plc and plc != '_%d' % l]
+    if cap:
+        return 'var:' + cap[0]
     names = [nm for (nm, pl) in F.debug_all if pl.strip() == '_%d' % l]
     if names:
         return 'var:' + names[0]
@@ -193,6 +198,15 @@ def _expr(F, du, operand, depth=0):
             if m.group(1) in ('Add', 'Mul'):
                 x, y = sorted((x, y))       # commutative
             return '%s(%s, %s)' % (m.group(1), x, y)
+        m = re.match(r'^(?:copy|move) \(\*_(\d+)\)$', rhs)
+        if m:
+            # `_19 = deref_copy ((*_1).2: &usize); _13 = copy (*_19)`: a captured variable read through its reference
+            d2 = du.single_def(int(m.group(1)))
+            if d2 is not None and d2[1] == 'stmt' and (d2[2].rhs or '').startswith('deref_copy '):
+                plc2 = '(*%s)' % d2[2].rhs[len('deref_copy '):].strip()
+                cap2 = [nm for (nm, pl) in F.debug_all if pl.strip() == plc2]
+                if cap2:
+                    return 'var:' + cap2[0]
         m = re.match(r'^(copy|move) (.*)$', rhs)
         if m:
             return _expr(F, du, rhs, depth + 1)
@@ -216,7 +230,11 @@ def flw26_row_and_column_view_one_window(ctx):
     F = P.one('QueryTask::convert_to_output_format')
     F.parse()
     du = DefUse(F)
-    slices = [(b, t) for (b, t) in F.calls() if not b.cleanup and norm_callee(t.func or '').endswith('::slice_box')]
+    slices = [(b, t, F, du) for (b, t) in F.calls() if not b.cleanup and norm_callee(t.func or '').endswith('::slice_box')]
+    for cb in P.closures_of(F):      # `.map(|(colname, proj)| .. slice_box(offset, offset + count) ..)`
+        cb.parse()
+        cdu = DefUse(cb)
+        slices += [(b, t, cb, cdu) for (b, t) in cb.calls() if not b.cleanup and norm_callee(t.func or '').endswith('::slice_box')]
     ranges = []
     for bid, blk in F.blocks.items():
         if blk.cleanup:
@@ -227,10 +245,10 @@ def flw26_row_and_column_view_one_window(ctx):
                 ranges.append((s, m.group(1), m.group(2)))
     ctx.require(slices and ranges, 'FLW-26: convert_to_output_format has no slice_box call / no row range')
     rs = [(_expr(F, du, a), _expr(F, du, b)) for (_s, a, b) in ranges]
-    for k, (blk, t) in enumerate(slices):
+    for k, (blk, t, SB, sdu) in enumerate(slices):
         if len(t.args) < 3:
             continue
-        win = (_expr(F, du, t.args[1]), _expr(F, du, t.args[2]))
+        win = (_expr(SB, sdu, t.args[1]), _expr(SB, sdu, t.args[2]))
         same = win in rs
         ctx.check('FLW-26', 'convert_to_output_format|slice_box%s|same-window-as-rows' % ('' if k == 0 else '#%d' % (k + 1)), same,
                   'columns are cut with (%s, %s); the row loop runs over %s' % (win[0], win[1], rs), where(t))
